@@ -3,5 +3,5 @@ Require Extraction.
 Require Import ExtrOcamlBasic.
 From Coq Require Import ZArith.
 From Verif Require Import GoInt Facts_alu AluM.
-Extraction "alu_model.ml" vm_binop vm_neg vm_subinv vm_convert kind_ity wrap canon bin un
+Extraction "alu_model.ml" vm_binop vm_neg vm_subinv vm_convert vm_cmp cmp kind_ity wrap canon bin un
   Z.add Z.mul Z.opp Z.quotrem Z.ltb Z.eqb Z.of_N N.add Nat.add.
